@@ -298,6 +298,8 @@ def check_property(pid, tier, seed):
                 obs[i] = o
             hist = {}
             ok = True
+            ndis = 0
+            nshrunk = 0
             for i, (c, e, o) in enumerate(zip(lines, exp, obs)):
                 cov["evaluations"] += 1
                 is_kf = ncorpus <= i < ncorpus + nkf
@@ -355,18 +357,35 @@ def check_property(pid, tier, seed):
                     hist["known-finding class " + kmatch.get("id", "?")] = hist.get("known-finding class " + kmatch.get("id", "?"), 0) + 1
                     continue
                 ok = False
-                small = shrink(fam, c, o) if vcount + len(unresolved) < 2 else c
+                ndis += 1
+                # judge the case as generated first (cheap): disagreements the oracle cannot turn into a
+                # failure of the property are kept aside and the scan goes on looking for one it can
+                try:
+                    v0, d0 = F["oracle"](pc, sexp.parse(o), sexp.parse(e))
+                except Exception as ex:
+                    v0, d0 = "unknown", "oracle failed: %s" % ex
+                if v0 != "violation" and (len(unresolved) >= 2 or nshrunk >= 2):
+                    if len(unresolved) < 5:
+                        unresolved.append((fam, c, e, o, d0))
+                    if ndis >= 400:
+                        break
+                    continue
+                small = shrink(fam, c, o) if nshrunk < 2 else c
+                nshrunk += 1
                 se = run_model(normalise(fam, [small]))[0]
                 so = run_impl(fam, normalise(fam, [small]), timeout=120)[0]
                 verdict, detail = F["oracle"](sexp.parse(small), sexp.parse(so), sexp.parse(se))
+                if verdict != "violation" and small != c and v0 == "violation":
+                    # shrinking lost what the oracle needs (an expectation carried by the case)
+                    small, se, so, verdict, detail = c, e, o, v0, d0
                 if verdict == "violation":
                     vcount += 1
                     path = write_replay(pid, fam, seed, vcount, small, se, so, verdict, detail,
                                         "correspondence %s (model vs implementation)" % fam)
                     violations.append((path, ""))
-                else:
+                elif len(unresolved) < 5:
                     unresolved.append((fam, small, se, so, detail))
-                if vcount + len(unresolved) >= 5:
+                if vcount >= 5 or ndis >= 400:
                     break
             fam_ok[fam] = ok
             cov["families"][fam] = {"cases": len(lines), "corpus": ncorpus, "known_finding_replays": nkf}
